@@ -109,6 +109,9 @@ def end_case(verb, place, how, pool=True, sessions=0, size=None, rest=None, list
     steps, gates, files, block, payload = xfer.transfer_setup(verb, place, size=size, rest=rest, listen=listen)
     steps = steps + [["snap", "held"]] + end_steps(how)
     stalled = place[0] in ("stalled", "stalled_gate") or "retr_stalled" in place[1:]
+    if place[0] == "tgate" and place[1] == "close":
+        # the back-end close is running in its executor thread: it completes when the back-end lets it
+        steps = steps + [["snap", "unwinding"], ["release", None]]
     if slow_close:
         gates = gates + [["close", 1]]
         steps = steps + [["snap", "unwinding"], ["release", "close"]]
@@ -118,6 +121,7 @@ def end_case(verb, place, how, pool=True, sessions=0, size=None, rest=None, list
         "payload": payload, "block": block, "sessions": sessions, "wait_future_timeout": 50, "listen": listen,
         "slow_close": slow_close, "actors": ACTORS[:actors],
         **({"water": [8, 16]} if stalled else {}),
+        **({"backend": "async"} if place[0] == "tgate" else {}),
     }
     if place[0] == "bind":
         case["bind_gate"] = place[1]
@@ -176,6 +180,8 @@ def oracle(case, r):
         if r.at_close is not None:
             # what Server.close() left behind at the instant it returned and that went away only later
             late = [n for n, v, w in zip(xfer.SLOT_NAMES, xfer.norm_real(r.at_close), left) if v and not w]
+            if case["place"][:2] == ["tgate", "close"] and late == ["files"]:
+                late = []  # the back-end close is running in an executor thread: Server.close() does not wait for threads
             if late:
                 bad.append(("at-close:" + "+".join(late), f"at the instant Server.close() returned the server still had {late}: {r.at_close}"))
         if r.final["main_listener"]:
@@ -256,7 +262,7 @@ def run_cases(ctx, cases, facts, stream):
         ctx.count(f"how:{how}")
         ctx.count("stream:" + stream)
         if stream == "stage":
-            ctx.count(f"place:{case['place'][0]}" + (f":{case['place'][1]}" if case["place"][0] in ("gate", "late_gate", "idle", "bind", "handler_gate", "stalled_gate") else ""))
+            ctx.count(f"place:{case['place'][0]}" + (f":{case['place'][1]}" if case["place"][0] in ("gate", "late_gate", "idle", "bind", "handler_gate", "stalled_gate", "tgate") else ""))
         bad, left = oracle(case, r)
         if bad:
             key = key_for(case, r, bad, left)
@@ -359,6 +365,15 @@ def stage_cases(thorough):
             if verb in ("RETR", "STOR", "APPE"):
                 cases.append(end_case(verb, ("gate", "read" if verb == "RETR" else "write", 2), how, slow_close=True))
                 cases.append(end_case(verb, ("sent", 5) if verb != "RETR" else ("gate", "seek", 1), how, slow_close=True, rest=1))
+    # the shipped AsyncPathIO back-end on a scratch directory: the session ends while an EXECUTOR job of the transfer runs
+    for verb, ops in (("RETR", [("open", 1), ("read", 1), ("read", 2), ("close", 1)]),
+                      ("STOR", [("open", 1), ("write", 1), ("write", 2), ("close", 1)]),
+                      ("LIST", [("stat", 2)])):
+        for op, n in ops:
+            for how in HOWS:
+                if how == "idle":
+                    continue  # no virtual time passes while an executor job is outstanding
+                cases.append(end_case(verb, ("tgate", op, n), how))
     # two transfers alive in the session that ends
     for first, second in TWO_PAIRS:
         for how in HOWS:
